@@ -85,7 +85,8 @@ func init() {
 			if in != nil {
 				fr.nilCheck(in, st, pv)
 			}
-			if pv.Kind == KElem && isByte(pv.ArrElem) && p.privateBytes {
+			if pv.Kind == KElem && isByte(pv.ArrElem) {
+				p.envStep(st, pv.Arr)
 				return Scalar{p.readLE(st, pv.Arr, pv.Idx, w/8)}
 			}
 			return Scalar{B.Fresh("atomic.load", SBV(w))}
@@ -96,7 +97,7 @@ func init() {
 	reg("(*sync/atomic.Int64).Load", "volatile: returns an arbitrary value", atomicLoad(64))
 	reg("(*sync/atomic.Int32).Load", "volatile: returns an arbitrary value", atomicLoad(32))
 	for _, k := range []string{"(*sync/atomic.Uint32).Load", "(*sync/atomic.Uint64).Load", "(*sync/atomic.Int64).Load", "(*sync/atomic.Int32).Load"} {
-		libEffTable[k] = noEffect
+		libEffTable[k] = bytesEffect
 	}
 	atomicStore := func(w int) libFn {
 		return func(fr *Frame, in ssa.Instruction, st *State, args []Value, rt types.Type) Value {
@@ -106,6 +107,7 @@ func init() {
 				fr.nilCheck(in, st, pv)
 			}
 			if pv.Kind == KElem && isByte(pv.ArrElem) {
+				p.envStep(st, pv.Arr)
 				p.writeLE(st, pv.Arr, pv.Idx, w/8, sTerm(args[1]))
 			}
 			return nil
@@ -126,7 +128,13 @@ func init() {
 			}
 			ok := B.Fresh("cas.ok", SBool)
 			if pv.Kind == KElem && isByte(pv.ArrElem) {
-				// on success the word holds new; on failure unchanged by us
+				p.envStep(st, pv.Arr)
+				// on success the word held old and now holds new; on failure unchanged by us
+				cur := p.readLE(st, pv.Arr, pv.Idx, w/8)
+				p.assume(st.Guard, Implies(ok, Eq(cur, sTerm(args[1]))))
+				if pg, okp := st.Ghost["private"]; okp {
+					p.assume(st.Guard, Implies(And(pg, Eq(cur, sTerm(args[1]))), ok))
+				}
 				s2 := st.clone()
 				p.writeLE(s2, pv.Arr, pv.Idx, w/8, sTerm(args[2]))
 				key := elemsKey(types.Typ[types.Uint8], "")
@@ -274,6 +282,19 @@ func init() {
 		libEffTable[k] = noEffect
 	}
 	_ = strings.ToLower
+}
+
+// envStep: before an atomic access to bytes shared with other processes, the environment may have
+// changed them (unless the ghost $private says the bytes belong to this call alone).
+func (p *Proof) envStep(st *State, arr *Term) {
+	key := elemsKey(types.Typ[types.Uint8], "")
+	c := p.bytesCell(st)
+	fresh := B.Fresh("env.bytes", SArr(SBV(64), SBV(8)))
+	if pg, ok := st.Ghost["private"]; ok {
+		st.Heap[key] = Store(c, arr, Ite(pg, Select(c, arr), fresh))
+		return
+	}
+	st.Heap[key] = Store(c, arr, fresh)
 }
 
 func strContains(p *Proof, s, sub *Term) *Term {
